@@ -1,7 +1,7 @@
 import KyberModel.Drive.Common
 import KyberModel.Proto.Dss
 /-
-Handler `dss <q> run <index> <n> <T> <alpha> <beta> <longC> <randC> <h> <sid> <ops>` : model of
+Handler `dss <q> run <fixOwn 0|1> <index> <n> <T> <alpha> <beta> <longC> <randC> <h> <sid> <ops>` : model of
 sign/dss/dss.go (C12). `<ops>` is a comma list of `s` (PartialSig()) and `r:<I>:<V>:<sid>:<auth>`
 (ProcessPartialSig; auth = 0/1 is the verdict of schnorr.Verify), `-` for none. Output:
 `<result per op> <partialsIdx in insertion order> <EnoughPartialSig> <R:gamma | err>`; the result of `s`
@@ -26,24 +26,28 @@ def dssVerdict : Verdict → String
   | .errDup => "errDup" | .errInvalid => "errInvalid"
 
 /-- Runs the history with the very functions `step` is made of, collecting the per-op results. -/
-def dssRun (q : Nat) : DSS → List Op → List String → DSS × List String
+def dssRun (fx : Bool) (q : Nat) : DSS → List Op → List String → DSS × List String
   | d, [], acc => (d, acc.reverse)
   | d, Op.sign :: ops, acc =>
-    let r := partialSig q d
-    dssRun q r.1 ops (s!"P:{outN r.2.I}:{outN r.2.V}" :: acc)
+    let r := partialSig fx q d
+    dssRun fx q r.1 ops (s!"P:{outN r.2.I}:{outN r.2.V}" :: acc)
   | d, Op.recv ps a :: ops, acc =>
     let r := processPartialSig q d ps a
-    dssRun q r.1 ops (dssVerdict r.2 :: acc)
+    dssRun fx q r.1 ops (dssVerdict r.2 :: acc)
 
 def handleDss : List String → String
-  | [qs, "run", idx, n, t, al, be, lc, rc, h, sid, ops] =>
+  | [qs, "run", fxs, idx, n, t, al, be, lc, rc, h, sid, ops] =>
+    let fxo : Option Bool := if fxs = "0" then some false else if fxs = "1" then some true else none
+    match fxo with
+    | none => badOp
+    | some fx =>
     match hexN qs, hexN idx, hexN n, hexN t, hexN al, hexN be, hexNList lc, hexNList rc, hexN h, hexN sid with
     | some q, some idx, some n, some t, some al, some be, some lc, some rc, some h, some sid =>
       let opl := if ops = "-" then some [] else (ops.splitOn ",").mapM dssParseOp
       match opl with
       | none => badOp
       | some opl =>
-        let r := dssRun q (newDSS idx n t al be lc rc h sid) opl []
+        let r := dssRun fx q (newDSS idx n t al be lc rc h sid) opl []
         let d := r.1
         let res := if r.2.isEmpty then "-" else ",".intercalate r.2
         let sg := match signature q d with
